@@ -117,6 +117,8 @@ class TimeShim:
         return self._loop.time()
 
     def sleep(self, secs: float) -> None:
+        if secs < 0:
+            raise ValueError("sleep length must be non-negative")      # as time.sleep does
         self._loop.vt_us += max(0, math.ceil(secs * 1e6))
 
     def __getattr__(self, name):
